@@ -17,12 +17,17 @@ from fractions import Fraction
 
 _U = {}
 UNITS = {1: "m", 2: "la", 3: "lc", 4: "km", 5: "mile", 6: "cm", 7: "mm", 8: "Mm", 9: "ym", 10: "Ym", 11: "lnd",
-         12: "l_pl", 13: "Wh", 14: "J", 15: "dB", 16: "B"}
+         12: "l_pl", 13: "Wh", 14: "J", 15: "dB", 16: "B",
+         17: "N", 18: "kg*m/s**2", 19: "degC", 20: "degF", 21: "K", 22: "tc", 23: "tf", 24: "dyn", 25: "g*cm/s**2"}
 # exact scales (lengths in metres; mile = 1609.344 m by definition; decimal prefixes are the ideal powers of ten).
 # 12..16 are table values: their definition is the number the registry holds (filled in by setup).
 SCALE = {1: Fraction(1), 2: Fraction(1024), 3: Fraction(1, 8), 4: Fraction(1000), 5: Fraction(1609344, 1000),
          6: Fraction(1, 100), 7: Fraction(1, 1000), 8: Fraction(10**6), 9: Fraction(1, 10**24), 10: Fraction(10**24),
-         11: Fraction(1024)}
+         11: Fraction(1024), 17: Fraction(1), 18: Fraction(1), 19: Fraction(1), 20: Fraction(5, 9), 21: Fraction(1),
+         22: Fraction(1), 23: Fraction(1, 2), 24: Fraction(1, 10**5), 25: Fraction(1, 10**5)}
+# units with an offset: reading v stands for (v - OFFSET) * SCALE kelvin (degC, degF by their defining relations;
+# tc, tf are the dyadic model units of DType.UnitOff)
+OFFSET = {19: Fraction(-27315, 100), 20: Fraction(-45967, 100), 22: Fraction(-33, 2), 23: Fraction(-17, 4)}
 TABLE_UNITS = (12, 13, 14, 15, 16)
 # float formats by component size: precision, emin, emax
 FMT = {2: (11, -14, 15), 4: (24, -126, 127), 8: (53, -1022, 1023), 16: (64, -16382, 16383)}
@@ -40,6 +45,8 @@ def setup(common=None):
     reg.add("lc", 0.125, dimensions.length)
     # same scale as la, but held as a strongly typed NumPy scalar (as the bel family and the Planck units are)
     reg.add("lnd", np.float64(1024.0), dimensions.length)
+    reg.add("tc", 1.0, dimensions.temperature, offset=-16.5)
+    reg.add("tf", 0.5, dimensions.temperature, offset=-4.25)
     for i in TABLE_UNITS:
         SCALE[i] = Fraction(float(unyt.Unit(UNITS[i], registry=reg).base_value))
     assert type(reg.lut["l_pl"][0]) is np.float64 and type(reg.lut["dB"][0]) is np.float64, "table no longer holds NumPy scalars for l_pl/dB"
@@ -314,12 +321,12 @@ def near1(ob, ex, cs, ulps=4, extra=0):
     return abs(ob - ex) <= tol
 
 
-def near(obs, want_v, cs, is_complex, ulps=4):
+def near(obs, want_v, cs, is_complex, ulps=4, extra=0):
     if cs not in FMT:
         return False
     if is_complex:
-        return near1(obs[0], want_v[0], cs, ulps) and near1(obs[1], want_v[1], cs, ulps)
-    return want_v[1] == 0 and obs[1] == 0 and near1(obs[0], want_v[0], cs, ulps)
+        return near1(obs[0], want_v[0], cs, ulps, extra) and near1(obs[1], want_v[1], cs, ulps)
+    return want_v[1] == 0 and obs[1] == 0 and near1(obs[0], want_v[0], cs, ulps, extra)
 
 
 def conv_ulps(d, cs):
@@ -345,7 +352,7 @@ def same_near(a, b, cs):
     return True
 
 
-NOEL = {"has": False, "re": [0, 1], "im": [0, 1], "mR": False, "mW": False, "mS": False, "mP": False, "mT": False, "b": False}
+NOEL = {"has": False, "re": [0, 1], "im": [0, 1], "mR": False, "mW": False, "mS": False, "mP": False, "mT": False, "mX": False, "b": False}
 
 
 def elem_record(obs):
@@ -370,6 +377,11 @@ def call_route(route, x, to_unit):
         return x.in_base("mks")
     if route == "in_mks":
         return x.in_mks()
+    if route == "in_cgs":
+        return x.in_cgs()
+    if route == "convert_to_cgs":
+        x.convert_to_cgs()
+        return x
     if route == "convert_to_units":
         x.convert_to_units(to_unit)
         return x
@@ -385,7 +397,7 @@ def call_route(route, x, to_unit):
     raise ValueError(route)
 
 
-def observe_route(route, d, vals, scalar, frm, to, k, real=False):
+def observe_route(route, d, vals, scalar, frm, to, k, real=False, sh=(0, 1)):
     x = make_obj(d, vals, scalar, UNITS[frm])
     r, exc, wr, wu = run(lambda: call_route(route, x, UNITS[to]))
     if exc:
@@ -395,20 +407,44 @@ def observe_route(route, d, vals, scalar, frm, to, k, real=False):
     cs_r = 8 if py else (sz // 2 if kd == "c" else sz)
     cs_w = comp(d)
     f = SCALE[frm] / SCALE[to]
-    assert real or f == Fraction(2) ** k
+    # what the conversion adds after scaling (units with an offset)
+    shift = OFFSET.get(to, Fraction(0)) - f * OFFSET.get(frm, Fraction(0))
+    assert real or (f == Fraction(2) ** k and shift == Fraction(sh[0], sh[1]))
     if real:
-        mt = lambda ob, ex, cs, isc: near(ob, ex, cs, isc, conv_ulps(d, cs))  # noqa: E731
+        # with an offset the shift is rounded to the type too (one more ulp of it), and the library's shift
+        # (ratio * old offset - new offset, in double precision) carries the cancellation error of its terms
+        # and the scaled product is rounded to the type before the shift is subtracted (one more ulp of the larger
+        # of product and result) - the two readings of "rounded to that float type" the dyadic family tells apart
+        def mt(ob, ex, cs, isc, prod=0):
+            extra = 0
+            if shift and cs in FMT:
+                extra = ulp(shift, cs) + Fraction(500, 2**48) + ulp(max(abs(prod), abs(ex[0])), cs)
+            if near(ob, ex, cs, isc, conv_ulps(d, cs), extra):
+                return True
+            # the product legitimately overflows the type before the shift brings it back (65535 K -> degC in float16):
+            # the second reading gives inf, as on the dyadic pairs (flag mP there)
+            pr = rnd(prod, cs) if (shift and cs in FMT) else prod
+            return bool(shift) and not isinstance(pr, Fraction) and ob[0] == pr and (not isc or near1(ob[1], ex[1], cs, conv_ulps(d, cs)))
     else:
-        mt = match
+        def mt(ob, ex, cs, isc, prod=0):
+            return match(ob, ex, cs, isc)
     els = []
     for ob, v in zip(obs, vals):
-        ex = (v[0] * f, v[1] * f)
+        ex = (v[0] * f + shift, v[1] * f)
         e = dict(NOEL) if real else elem_record(ob)
-        e["mR"] = kd in "fc" and mt(ob, ex, cs_r, kd == "c")
+        # identity conversions only: the input came back exactly (whatever the dtype)
+        e["mX"] = frm == to and ob == v
+        if shift and not real and kd in "fc" and cs_r in FMT:
+            # second reading of "rounded to that float type": product rounded, then shifted in that type
+            # (in the result type, or in Want(d) when a scalar came back as a Python number)
+            for cs in {cs_r, cs_w}:
+                st = (rnd(x_add(rnd(v[0] * f, cs), rnd(shift, cs)), cs), rnd(v[1] * f, cs))
+                e["mP"] = e["mP"] or match(ob, st, cs_r, kd == "c")
+        e["mR"] = kd in "fc" and mt(ob, ex, cs_r, kd == "c", v[0] * f)
         if kind(d) == "c":
-            e["mW"] = kd == "c" and mt(ob, ex, cs_w, True)
+            e["mW"] = kd == "c" and mt(ob, ex, cs_w, True, v[0] * f)
         else:
-            e["mW"] = kd in "fc" and mt(ob, ex, cs_w, False)
+            e["mW"] = kd in "fc" and mt(ob, ex, cs_w, False, v[0] * f)
         tr = Fraction(math.floor(ex[0])), Fraction(math.trunc(ex[0]))
         e["mT"] = ex[0].denominator != 1 and ob[0] in tr
         els.append(e)
@@ -421,8 +457,9 @@ def observe_conv(c):
     scalar = c["shape"] == "q"
     vals = [value_of(d, vc) for vc in c["vcs"]]
     real = bool(c.get("real"))
-    oc, rc = observe_route(c["route"], d, vals, scalar, c["from"], c["to"], c["k"], real)
-    oi, ri = observe_route(c["twin"], d, vals, scalar, c["from"], c["to"], c["k"], real)
+    sh = c.get("sh", (0, 1))
+    oc, rc = observe_route(c["route"], d, vals, scalar, c["from"], c["to"], c["k"], real, sh)
+    oi, ri = observe_route(c["twin"], d, vals, scalar, c["from"], c["to"], c["k"], real, sh)
     same = []
     if rc is not None and ri is not None:
         vc_, vi_ = rc[0], ri[0]
